@@ -454,3 +454,10 @@ func (r *Report) MergeInto(parent *Report) {
 		}
 	}
 }
+
+// Executions returns the number of evaluations counted so far.
+func (r *Report) Executions() int64 {
+	r.mu.Lock()
+	defer r.mu.Unlock()
+	return r.evaluations
+}
